@@ -12,7 +12,7 @@ PARTIAL = {
     "C11": "independence (no shared storage) cannot be expressed over immutable model values: tie only (mutation probing); equality proved on `fullTy`",
     "C12": "fixpoint proved for the untyped chain; typed leg proved on fullTy incl. tagged entries (token level and CBOR; with tags under TagsOk/TagStab); JSON typed leg only for float-free typed targets",
     "C15": "none in the model since C15Prog (decoder models = programs over the reader operations); real decoders vs schedules: tie",
-    "C17": "codec instances: proved for every history (C17Reuse); object-layer machines (slab rows, per-instance caches) have no state in the model, so their reuse after any history is tie only",
+    "C17": "codec instances: proved for every history (C17Reuse); object-layer machines: the slab discipline is modelled and proved history-free, and the code's grow/release/Bind text and per-field reset table are regenerated and compared with the audited ones on every run (C17Machines); what each machine's Step does with its own fields after reuse is tie only (hist)",
     "C18": "memory model / scheduler not modelled: non-interference theorem + regenerated SSA write-set + race detector",
     "C13": "completeness proved on `fullTy`; outside it (untagged structs inside untyped slots, transforms receiving untyped forms) tie only",
 }
